@@ -48,6 +48,8 @@ fn registry() -> Vec<PropDef> {
         prop!("C02", c02),
         prop!("C06", c06),
         prop!("C08", c08),
+        prop!("C16", c16),
+        prop!("C17", c17),
     ]
 }
 
